@@ -1372,6 +1372,11 @@ def sig_of(kind, msg):
                 if 'Error' not in msg:
                     msg = 'Error: ' + msg
                 break
+    if kind == 'transform-raised' and msg.startswith('TransformationError'):
+        # batch wrapper: the cause is what follows ' -- ' in the first line
+        first = msg.splitlines()[0]
+        cause = first.split(' -- ', 1)[1] if ' -- ' in first else first
+        return 'transform-raised:TransformationError:' + re.sub(r'\d+', 'N', re.sub(r"[‘'`][A-Za-z_0-9]+[’']", 'ID', cause))[:80]
     sg = re.sub(r"[‘'`][A-Za-z_0-9]+[’']", 'ID', F.failure_signature(kind, msg))
     sg = re.sub(r'; did you mean ID\?', '', sg)
     return re.sub(r'(RecursionError).*', r'\1', sg)
